@@ -138,7 +138,33 @@ func allVarNodes(sc *gen.Script) []*gen.Var {
 func mutateNames(r *rng.R, sc *gen.Script) string {
 	vars := allVarNodes(sc)
 	for attempt := 0; attempt < 8; attempt++ {
-		switch r.Intn(8) {
+		switch r.Intn(10) {
+		case 8, 9: // a use duplicated (or a new use added) as an extra argument of a call
+			var calls []*gen.Call
+			for _, d := range sc.Vars {
+				if d.Origin != nil {
+					calls = append(calls, d.Origin)
+				}
+			}
+			for _, st := range sc.Stmts {
+				if cl, ok := st.(*gen.Call); ok {
+					calls = append(calls, cl)
+				}
+			}
+			if len(calls) == 0 {
+				cl := &gen.Call{Name: "set_tx_meta", Args: []gen.Expr{gen.S("k"), gen.N("1")}}
+				sc.Stmts = append(sc.Stmts, cl)
+				calls = append(calls, cl)
+			}
+			cl := calls[r.Intn(len(calls))]
+			name := "extra_undeclared"
+			if len(sc.Vars) > 0 && r.Chance(2, 3) {
+				name = sc.Vars[r.Intn(len(sc.Vars))].Name
+			}
+			for k := r.Range(1, 2); k > 0; k-- {
+				cl.Args = append(cl.Args, gen.V(name))
+			}
+			return "extra-argument-use"
 		case 7: // origin argument referring to the variable being declared
 			if len(sc.Vars) == 0 {
 				continue
